@@ -144,6 +144,16 @@ def finish(ctx: Ctx, t0: float, seed: int, explanation: str, rule_text: str, sel
             print(f"  UNKNOWN {o.site} {o.function} rule={o.rule} instance={o.instance} {o.detail}")
     for n in ctx.notes:
         print(f"  note: {n}")
+    rs = ctx.extra.get("restructured_functions") or {}
+    if rs:
+        if ctx.extra.get("scope_rewritten"):
+            print(f"NOT-DECIDED: property={prop} the files this property looks at were refactored as a whole ({len(rs)} functions, {sum(rs.values())} statements differ from the "
+                  f"reviewed reference): structural clauses are not decided on this tree")
+        for k, d in sorted(rs.items())[:12]:
+            print(f"NOT-DECIDED: property={prop} {k} differs from the reviewed reference by {d} statements (rewritten, not locally edited): "
+                  f"the structural clauses anchored in it are not decided on this tree")
+        for msg in getattr(ctx, "not_decided", []):
+            print(f"NOT-DECIDED: property={prop} {msg}")
     for o in known_hits:
         print(f"KNOWN-FINDING: property={prop} {o.rule} {o.site} {o.function}: {o.instance} -- {o.detail}")
     vdir = os.path.join(EVDIR, "violations")
